@@ -523,5 +523,8 @@ func runC10(c *Ctx) error {
 	if err := c.c10Corr(); err != nil {
 		return err
 	}
+	if err := c.c10Tuple(); err != nil {
+		return err
+	}
 	return c.c10Scripts()
 }
